@@ -724,6 +724,7 @@ func (x *e2) runConcurrent() {
 		class string
 		start, end int
 		termAtStart bool
+		task string
 	}
 	var results []*res
 	emitAtTermCheck := -1
@@ -778,6 +779,7 @@ func (x *e2) runConcurrent() {
 				r := &res{ev: ev, start: x.d.Step, termAtStart: x.st.IsTerminated()}
 				results = append(results, r)
 				_, t := verifsim.Current()
+				r.task = t.Name
 				t.SetAPI(ev.Op)
 				x.lateWrites[t.Name] = 0
 				r.class, _ = x.exec(ev)
@@ -792,6 +794,25 @@ func (x *e2) runConcurrent() {
 	x.res.Desc = map[string]any{"mode": "concurrent", "stall": stall, "tasks": desc}
 	x.d.Logf("  %v stall=%v", desc, stall)
 	q := x.d.Run()
+	if q && stall && !x.manual {
+		// with automatic flushing only the stream's FIRST receive may need the write
+		// lock (to push out a corked invoke), and only if no send came before it: a
+		// receive that began after a send of this stream had begun never waits for
+		// the write lock, even while that send is parked in the transport
+		// (a MsgSend that holds the write lock has consumed the first-receive flush
+		// before it took the lock, so no receive can be queued behind it)
+		sendParked := false
+		for _, t := range x.rt.Tasks() {
+			if t.State == verifsim.StWaiting && t.API == "send" && strings.HasPrefix(t.Label, "net.write") {
+				sendParked = true
+			}
+		}
+		for _, t := range x.rt.Tasks() {
+			if sendParked && t.State == verifsim.StWaiting && t.API == "recv" && t.Label == "mutex:RawFlush" {
+				x.viol("concurrent", "a receive waits for the write lock behind a send of its own stream (automatic flushing)", t.Name+" "+t.Label)
+			}
+		}
+	}
 	if q && stall {
 		x.peer.Heal()
 		q = x.d.Run()
